@@ -104,6 +104,8 @@ func runBehaviour(t *testing.T, beh []Step, idx int, rep *vh.Report, dir, prop s
 			w.SetTick(s.Pre.Now + 1)
 		case "Sequence":
 			be.Sequence(s.Args.K, w.Nanos(s.Pre.Now, s.Args.Rem), nil)
+		case "Resign":
+			be.Sequence(0, w.Nanos(s.Pre.Now, s.Args.Rem), nil)
 		case "AddChain":
 			sub := w.Subs[s.Args.Cert]
 			ncalls := be.NumCalls()
